@@ -109,7 +109,14 @@ class PathEnv:
             else:
                 self.bind(st.target, opaque('aug'))
         elif isinstance(st, (ast.FunctionDef, ast.AsyncFunctionDef)):
-            self.env.pop(st.name, None)
+            if isinstance(st, ast.FunctionDef) and len(st.body) == 1 and isinstance(st.body[0], ast.Return) and st.body[0].value is not None \
+                    and not st.decorator_list:
+                # `def f(x): return E` is the lambda `lambda x: E`
+                shadow = {a.arg for a in st.args.posonlyargs + st.args.args + st.args.kwonlyargs}
+                inner = PathEnv({k: v for k, v in self.env.items() if k not in shadow})
+                self.env[st.name] = ast.Lambda(args=st.args, body=inner.close(st.body[0].value))
+            else:
+                self.env.pop(st.name, None)
         elif isinstance(st, (ast.Import, ast.ImportFrom)):
             for a in st.names:
                 self.env.pop(a.asname or a.name.split('.')[0], None)
@@ -250,6 +257,62 @@ def _conv_call(e: ast.AST) -> T.Optional[T.Tuple[str, ast.AST]]:
     return None
 
 
+def _spec_conv(spec: ast.AST, where: ast.AST) -> T.Tuple[str, ...]:
+    """Conversion implied by a constant format spec: '' / 's' none, 'd' / 'i' integer; anything else is outside the subset."""
+    if isinstance(spec, ast.JoinedStr) and all(isinstance(v, ast.Constant) for v in spec.values):
+        txt = ''.join(str(v.value) for v in spec.values)  # type: ignore[attr-defined]
+    elif isinstance(spec, str):
+        txt = spec
+    else:
+        raise Undecided(f'computed format spec in {short(where)}')
+    if txt in ('', 's'):
+        return ()
+    if txt in ('d', 'i'):
+        return ('int',)
+    raise Undecided(f'format spec {txt!r} in {short(where)}')
+
+
+def _format_call(e: ast.Call, scans: T.Mapping[str, T.Any]) -> T.Tuple[T.Any, ...]:
+    """'..{}..{name!r:d}..'.format(a, name=b): constant format string, operands bound by position / keyword."""
+    import string
+    fmt = e.func.value.value  # type: ignore[attr-defined]
+    kws = {k.arg: k.value for k in e.keywords}
+    out: T.List[T.Any] = []
+    auto = 0
+    try:
+        fields = list(string.Formatter().parse(fmt))
+    except ValueError:
+        raise Undecided(f'format string does not parse: {fmt!r}')
+    for lit, field, spec, conv_ in fields:
+        if lit:
+            out.append(Lit(lit))
+        if field is None:
+            continue
+        if field == '':
+            idx: T.Any = auto
+            auto += 1
+        elif field.isdigit():
+            idx = int(field)
+        else:
+            idx = field
+        if isinstance(idx, int):
+            if idx >= len(e.args):
+                raise Undecided(f'format field {field!r} without operand in {short(e)}')
+            operand = e.args[idx]
+        else:
+            if idx not in kws:
+                raise Undecided(f'format field {field!r} outside the supported subset in {short(e)}')
+            operand = kws[idx]
+        c = _spec_conv(spec or '', e)
+        if conv_ == 'r':
+            out.append(Op(norm(operand), ('!r',), operand))
+        elif conv_ in (None, 's'):
+            out.extend(parts(operand, scans, c))
+        else:
+            raise Undecided(f'format conversion !{conv_} in {short(e)}')
+    return tuple(out)
+
+
 def parts(e: ast.AST, scans: T.Mapping[str, T.Any] = {}, conv: T.Tuple[str, ...] = ()) -> T.Tuple[Part, ...]:
     """Shape of a text-valued expression.  `scans` maps replacement-function names to the index of their text argument."""
     if isinstance(e, ast.Constant):
@@ -263,14 +326,14 @@ def parts(e: ast.AST, scans: T.Mapping[str, T.Any] = {}, conv: T.Tuple[str, ...]
             if isinstance(v, ast.Constant):
                 out.append(Lit(str(v.value)))
             elif isinstance(v, ast.FormattedValue):
-                if v.format_spec is not None:
-                    raise Undecided(f'f-string format spec in {short(e)}')
                 c: T.Tuple[str, ...] = ()
+                if v.format_spec is not None:
+                    c = _spec_conv(v.format_spec, e)
                 if v.conversion == ord('r'):
                     c = ('!r',)
                 elif v.conversion not in (-1, ord('s')):
                     raise Undecided(f'f-string conversion in {short(e)}')
-                out.extend(parts(v.value, scans, c) if not c else (Op(norm(v.value), c, v.value),))
+                out.extend(parts(v.value, scans, c) if '!r' not in c else (Op(norm(v.value), c, v.value),))
         return tuple(out)
     if isinstance(e, ast.BinOp) and isinstance(e.op, ast.Add) and not conv:
         return parts(e.left, scans) + parts(e.right, scans)
@@ -296,6 +359,18 @@ def parts(e: ast.AST, scans: T.Mapping[str, T.Any] = {}, conv: T.Tuple[str, ...]
             out.append(Lit(fmt[pos:]))
         if i != len(ops):
             raise Undecided(f'format string / operand count mismatch in {short(e)}')
+        return tuple(out)
+    if not conv and isinstance(e, ast.Call) and isinstance(e.func, ast.Attribute) and e.func.attr == 'format' and isinstance(e.func.value, ast.Constant) \
+            and isinstance(e.func.value.value, str) and not any(isinstance(a, ast.Starred) for a in e.args) and all(k.arg for k in e.keywords):
+        return _format_call(e, scans)
+    if not conv and isinstance(e, ast.Call) and isinstance(e.func, ast.Attribute) and e.func.attr == 'join' and isinstance(e.func.value, ast.Constant) \
+            and isinstance(e.func.value.value, str) and len(e.args) == 1 and isinstance(e.args[0], (ast.List, ast.Tuple)) \
+            and not any(isinstance(a, ast.Starred) for a in e.args[0].elts) and not e.keywords:
+        out = []
+        for i, el in enumerate(e.args[0].elts):
+            if i:
+                out.append(Lit(e.func.value.value))
+            out.extend(parts(el, scans))
         return tuple(out)
     cc = _conv_call(e)
     if cc is not None:
